@@ -91,7 +91,8 @@ def check(c):
     for i, v in enumerate(y):
         X[i, list(labels).index(v)] = 1.0 + 0.01 * (i % 7)
     base = LogisticRegression() if c["clf"] == "logreg" else DecisionTreeClassifier(random_state=0)
-    m = TransformedTargetClassifier2(base, transformer=PermutationReciprocalTransformer(random_state=c["random_state"]))
+    user_tr = PermutationReciprocalTransformer(random_state=c["random_state"])
+    m = TransformedTargetClassifier2(base, transformer=user_tr)
     m.fit(X, y)
     pred = m.predict(X)
     if not set(pred.tolist()) <= set(labels.tolist()):
@@ -105,6 +106,15 @@ def check(c):
         return dict(**{"class": "differs-from-plain"}, what="predictions differ from the plain classifier")
     if not numpy.array_equal(plain.classes_, cl) or not numpy.allclose(plain.predict_proba(X), proba, atol=1e-6):
         return dict(**{"class": "proba-differs-from-plain"}, what="probabilities / classes_ differ from the plain classifier")
+    # ownership of the fitted state: the caller's transformer object handed to a second model (fitted on other labels, other seed)
+    # must leave this model's predictions alone
+    user_tr.random_state = None if c["random_state"] is None else c["random_state"] + 1
+    y_b = (labels[::-1] * 2 + 1)[rs.randint(0, len(labels), len(y))]
+    y_b[:len(labels)] = labels[::-1] * 2 + 1
+    m2 = TransformedTargetClassifier2(LogisticRegression() if c["clf"] == "logreg" else DecisionTreeClassifier(random_state=0), transformer=user_tr)
+    m2.fit(X, y_b)
+    if not numpy.array_equal(m.predict(X), pred) or not numpy.allclose(m.predict_proba(X), proba):
+        return dict(**{"class": "shared-transformer"}, what="predictions change once the caller's transformer object is fitted inside another model")
     return None
 
 
